@@ -30,6 +30,7 @@ COMPONENTS = {
     "stub": ["SimLoop virtual clock and timer heap (seeded tie-break)", "SimNet", "stub server (RawPeer)", "recording send_message (direct mode)"],
 }
 ASSUMPTIONS = [
+    "a timeout of zero or less is outside what the property defines: 'give up at once' and 'no timeout' (the library's reading) are both accepted, the other clauses are judged under the reading the run shows",
     "nothing is demanded at an exact tie between an event or poll tick and the timeout or completion instant (the generator avoids event == timeout; poll ticks at the completion instant are accepted either way)",
     "grid step 0.25 s (binary fractions: no accidental float ties)",
     "the returned event is identified by its (old, new) pair: every non-matching update carries a unique value",
@@ -52,7 +53,7 @@ def generate(seed, tier, index):
     for i in range(nw):
         ek = rng.choice(["value", "state"])
         ck = rng.choice(["expect", "initial", "check"])
-        T = rng.choice([None, None, 0.5, 1.0, 1.75, 2.5, 4.0])
+        T = rng.choice([None, None, 0.5, 1.0, 1.75, 2.5, 4.0, 0, 0, -1.0])
         poll = None if rng.random() < 0.4 else [rng.choice([0.25, 0.5, 1.0, 1.5]), rng.choice([0.25, 0.5, 1.0])]
         start = rng.choice([0.0, 0.0, 0.25, 1.0])
         el = rng.choice(["E1", "E2"])
@@ -278,8 +279,19 @@ def execute(scen):
             if amb_start:
                 probes["ambiguous_start_tie"] = probes.get("ambiguous_start_tie", 0) + 1
                 continue
+            imm = False
+            if T is not None and T <= 0:
+                # a timeout of zero (or less) is outside what the property defines: "give up at once" and "no timeout" (what the
+                # library does) are both accepted; whichever it is, the rest of the contract - first match, polling - is judged
+                probes["nonpositive_timeout"] = probes.get("nonpositive_timeout", 0) + 1
+                if done is not None and done[0] == "timeout" and done[1] == s:
+                    imm = True
+                else:
+                    T = None
             deadline = None if T is None else s + T
-            if first is not None and (deadline is None or first[0] < deadline):
+            if imm:
+                completion = s
+            elif first is not None and (deadline is None or first[0] < deadline):
                 # must return that very event at that instant
                 same_instant = [c for c in cands if c[0] == first[0]]
                 if done is None:
